@@ -36,3 +36,13 @@
 (assert (not (supAmountsAccepted t r c)))
 (check-sat)
 (pop)
+
+(push)
+(echo "lemma C09.order.quantity: InvOrd of an open sell order implies the quantity conjuncts of SellOrder.Validate (non-empty, valid, non-negative)")
+(declare-const q Int) (declare-const p Int) (declare-const EMPTY Int)
+; the empty string parses as zero (NewDecFromString replaces "" by "0"; [C19.parse.val] for "0")
+(assert (and (decvalid EMPTY) (= (dv EMPTY) 0.0)))
+(assert (and (decvalid q) (> (dv q) 0.0) (<= (places q) p)))   ; InvOrd, quantity conjuncts
+(assert (not (and (not (= q EMPTY)) (decvalid q) (>= (dv q) 0.0))))
+(check-sat)
+(pop)
